@@ -12,7 +12,7 @@ fn c14_p7_native_int_div() {
     add_int_div(&mut root).unwrap();
     let nc = last_native(&root);
     let rt: Rt = no_limits();
-    let ns = empty_scope(&rt);
+    let ns = crate::runtime_scope::verif_kani::bare_scope();
     let a = any_canonical();
     let b = any_canonical();
     let bz = b.is_zero();
